@@ -6,7 +6,9 @@
                                            ensureClosePath/ClosePath, updateBounds, Rmoveto/Hmoveto/Vmoveto, Rlineto/Hlineto/
                                            Vlineto, Rrcurveto, Hhcurveto/Vvcurveto/Hvcurveto/Vhcurveto, Rcurveline/Rlinecurve,
                                            Hflex/Flex/Hflex1/Flex1, LocalSubr/GlobalSubr, PathBounds.ToExtents
-     font/cff/charstring.go                type2CharstringHandler.Apply, CFF.LoadGlyph (the run itself; fdSelect is a hook)
+     font/cff/charstring.go                type2CharstringHandler.Apply, CFF.LoadGlyph (the run itself; fdSelect is a hook);
+                                           cff2CharstringHandler.Apply / setVSIndex / blend and CFF2.LoadGlyph at the default
+                                           coordinates (no coordinate set: blend only drops its deltas)
 
    Numbers: the Go code keeps operands and coordinates in float64.  Every operand is an integer below 2^15 in magnitude or a
    16.16 fixed number (int32 / 65536), i.e. an integer multiple of 2^-16; here a number is the INTEGER  value * 2^16.
@@ -391,7 +393,12 @@ Fixpoint run_loop (fuel : nat) (lsubrs gsubrs : list (list Z)) (m : machine) (r 
   | O => OutOfFuel
   | S k =>
       match m_instr m with
-      | [] => Ok r                                     (* the loop ends when the current instructions are exhausted *)
+      | [] =>
+          (* the end of a subroutine is an implicit return; the end of the charstring ends the run *)
+          match m_calls m with
+          | [] => Ok r
+          | c :: cs => run_loop k lsubrs gsubrs (mkM c cs (m_args m)) r
+          end
       | _ =>
           do o <- step lsubrs gsubrs m r;
           match o with
@@ -404,6 +411,92 @@ Fixpoint run_loop (fuel : nat) (lsubrs gsubrs : list (list Z)) (m : machine) (r 
 (* CFF.LoadGlyph once the charstring and the subroutine lists are known: segments in order, bounds *)
 Definition load_glyph (fuel : nat) (cs : list Z) (lsubrs gsubrs : list (list Z)) : res (list cseg * (Z * Z * Z * Z)) :=
   do r <- run_loop fuel lsubrs gsubrs (mkM cs [] []) rd_init;
+  Ok (rev (r_segs r), r_bounds r).
+
+(* ---- CFF2 (cff2CharstringHandler) at the default coordinates ----
+   No return and no endchar operator; vsindex selects an ItemVariationData, blend drops the k deltas of each of its n
+   operands (k = number of regions of the selected data; no delta is applied because no coordinate is set).
+   [vs] lists, per ItemVariationData, its region count and whether all its region indices are valid. *)
+Definition vs_data := list (Z * bool).
+
+(* setVSIndex: new k or an error; with an empty store nothing happens *)
+Definition set_vs (vs : vs_data) (k idx : Z) : res Z :=
+  match vs with
+  | [] => Ok k
+  | _ =>
+      if (idx <? 0) || (Z.of_nat (length vs) <=? idx) then Err 40 else
+      let '(k', valid) := nth (Z.to_nat idx) vs (0, true) in
+      if valid then Ok k' else Err 41
+  end.
+(* the call made by LoadGlyph before the run: its error is ignored, but the scalars are resized before it is detected *)
+Definition init_vs (vs : vs_data) (idx : Z) : Z :=
+  match vs with
+  | [] => 0
+  | _ => if (idx <? 0) || (Z.of_nat (length vs) <=? idx) then 0 else fst (nth (Z.to_nat idx) vs (0, true))
+  end.
+
+Definition apply_op2 (vs : vs_data) (lsubrs gsubrs : list (list Z)) (k : Z) (m : machine) (r : reader) (escaped : bool) (op : Z)
+    : res (outcome * Z) :=
+  if negb escaped && ((op =? 11) || (op =? 14)) then Err 8                 (* not CFF2 operators *)
+  else if negb escaped && (op =? 15) then                                   (* vsindex *)
+    match rev (m_args m) with
+    | [] => Err 42
+    | v :: _ => do k' <- set_vs vs k (to_int32 v); Ok (Continue (cleared m) r, k')
+    end
+  else if negb escaped && (op =? 16) then                                   (* blend: the stack is not cleared *)
+    match rev (m_args m) with
+    | [] => Err 43
+    | v :: rest =>
+        let n := to_int32 v in
+        let t := Z.of_nat (length rest) in
+        if (n <? 0) || (t <? n * (k + 1)) then Err 44
+        else Ok (Continue (mkM (m_instr m) (m_calls m) (firstn (Z.to_nat (t - n * k)) (m_args m))) r, k)
+    end
+  else do o <- apply_op lsubrs gsubrs m r escaped op; Ok (o, k).
+
+Definition step2 (vs : vs_data) (lsubrs gsubrs : list (list Z)) (k : Z) (m : machine) (r : reader) : res (outcome * Z) :=
+  match parse_number (m_instr m) with
+  | Some (Ok (v, rest)) =>
+      if top m =? ARG_STACK_SIZE then Err 9 else Ok (Continue (mkM rest (m_calls m) (m_args m ++ [v])) r, k)
+  | Some (Err c) => Err c
+  | Some (Panic c) => Panic c
+  | Some OutOfFuel => OutOfFuel
+  | None =>
+      match m_instr m with
+      | [] => Ok (Stop r, k)
+      | b :: rest =>
+          if b =? 12 then
+            match rest with
+            | [] => Err 10
+            | b2 :: rest2 => apply_op2 vs lsubrs gsubrs k (mkM rest2 (m_calls m) (m_args m)) r true b2
+            end
+          else apply_op2 vs lsubrs gsubrs k (mkM rest (m_calls m) (m_args m)) r false b
+      end
+  end.
+
+Fixpoint run_loop2 (fuel : nat) (vs : vs_data) (lsubrs gsubrs : list (list Z)) (k : Z) (m : machine) (r : reader) : res reader :=
+  match fuel with
+  | O => OutOfFuel
+  | S f =>
+      match m_instr m with
+      | [] =>
+          match m_calls m with
+          | [] => Ok r
+          | c :: cs => run_loop2 f vs lsubrs gsubrs k (mkM c cs (m_args m)) r
+          end
+      | _ =>
+          do o <- step2 vs lsubrs gsubrs k m r;
+          match o with
+          | (Stop r', _) => Ok r'
+          | (Continue m' r', k') => run_loop2 f vs lsubrs gsubrs k' m' r'
+          end
+      end
+  end.
+
+(* CFF2.LoadGlyph(glyph, nil) *)
+Definition load_glyph2 (fuel : nat) (cs : list Z) (lsubrs gsubrs : list (list Z)) (vs : vs_data) (default_vs : Z)
+    : res (list cseg * (Z * Z * Z * Z)) :=
+  do r <- run_loop2 fuel vs lsubrs gsubrs (init_vs vs default_vs) (mkM cs [] []) rd_init;
   Ok (rev (r_segs r), r_bounds r).
 
 (* ---- observation: float32 segments, extents ---- *)
